@@ -87,6 +87,21 @@ pub fn c01_oracle(t: &TextTree, text: &str) -> Outcome {
         for f in codepoint_failures(text, &toks, &ctx) {
             o.fail(f);
         }
+        // surfaces partition the text whatever fields are loaded: nothing at all, or the surface only
+        if mode == Mode::C {
+            for sub in [sudachi::dic::subset::InfoSubset::empty(), sudachi::dic::subset::InfoSubset::SURFACE] {
+                o.evaluations += 1;
+                match catch(|| analyze_list(dict, mode, Some(sub), text).map(|l| toks_of(&l))) {
+                    Err(p) => o.fail(Failure::panic(&format!("fields {:?} mode {} {:?}", sub, mode_name(mode), text), &p)),
+                    Ok(Err(_)) => o.count("rejected", 1),
+                    Ok(Ok(st)) => {
+                        for f in partition_failures(text, &st, 0, text.len(), &format!("{} fields {:?}", ctx, sub)) {
+                            o.fail(f);
+                        }
+                    }
+                }
+            }
+        }
         // the stateless front end (its own way of turning the result into a list)
         {
             use sudachi::analysis::stateless_tokenizer::StatelessTokenizer;
@@ -253,6 +268,11 @@ fn long_inputs(world: Arc<World>) -> CaseSpace<(String, usize)> {
             cases.push((unit.to_string(), n));
         }
     }
+    // mixtures: many one-to-one rewrites (half-width kana, a letter whose lower case is longer)
+    // in front of expanding characters; the normalised length passes 65535 only through both
+    for (prefix, k, unit, n) in [("ｱ", 8000usize, "㍿", 3500usize), ("ｱ", 8000, "㍿", 3400), ("\u{23a}", 12000, "㍿", 2500), ("Я", 11000, "\u{fdfa}", 1400)] {
+        cases.push((format!("{}\u{1}{}\u{1}{}", prefix, k, unit), n));
+    }
     let w = world.clone();
     CaseSpace {
         label: format!("{}/long-expanding-inputs", world.name()),
@@ -261,7 +281,12 @@ fn long_inputs(world: Arc<World>) -> CaseSpace<(String, usize)> {
             let mut o = Outcome::new();
             o.nontrivial = true;
             for tail in ["京都に行く", ""] {
-                let text = format!("{}{}", unit.repeat(*n), tail);
+                let text = if unit.contains('\u{1}') {
+                    let f: Vec<&str> = unit.split('\u{1}').collect();
+                    format!("{}{}{}", f[0].repeat(f[1].parse::<usize>().unwrap_or(0)), f[2].repeat(*n), tail)
+                } else {
+                    format!("{}{}", unit.repeat(*n), tail)
+                };
                 for mode in [Mode::C, Mode::A] {
                     o.evaluations += 1;
                     match catch(|| analyze(&w.dict, mode, &text)) {
